@@ -1,0 +1,17 @@
+// Copyright (c) The Thanos Community Authors.
+// Licensed under the Apache License 2.0.
+
+package model
+
+import (
+	"github.com/efficientgo/core/errors"
+)
+
+// PanicToError turns the value recovered from a panic on one of the engine's
+// goroutines into the error reported for the query.
+func PanicToError(recovered any) error {
+	if err, ok := recovered.(error); ok {
+		return errors.Wrap(err, "unexpected error")
+	}
+	return errors.Newf("unexpected error: %v", recovered)
+}
